@@ -9,6 +9,12 @@ import Qryn.Read.RawSqlTable
 import Driver.C07X
 import Driver.C08
 import Qryn.LogQL.SameShapeMetric
+import Driver.C08X
+import Qryn.LogQL.SameShapeMetricX
+import Qryn.TraceQL.SameShape
+import Qryn.Prof.PlannersSegs
+import Driver.C11
+import Driver.C13Prof
 namespace Driver.C10
 open Qryn Qryn.Lex Qryn.Sql
 
@@ -66,6 +72,46 @@ def handle : List String → Option String
     let (q2, r2) ← Driver.C08.query? b
     if !r1.isEmpty || !r2.isEmpty then none else
     some (if decide (LogQL.sameShapeM q1 q2) then "1" else "0")
+  | "c10sameshapemx" :: rest => do
+    -- two serialised metric queries of the labelled path (C08X syntax) separated by the token `|`
+    let a := rest.takeWhile (· != "|")
+    let b := (rest.dropWhile (· != "|")).drop 1
+    let (q1, r1) ← Driver.C08X.queryX? a
+    let (q2, r2) ← Driver.C08X.queryX? b
+    if !r1.isEmpty || !r2.isEmpty then none else
+    some (if decide (LogQL.sameShapeMX q1 q2) then "1" else "0")
+  | ["c10sameshapet", s1, s2] => do
+    -- two serialised TraceQL scripts (C11 syntax)
+    let a ← Driver.C11.parseScript s1
+    let b ← Driver.C11.parseScript s2
+    some (if decide (TraceQL.sameShapeT a b) then "1" else "0")
+  | "c10profsegs" :: kind :: args => do
+    -- the text of the C10 segment view of a Pyroscope statement; arguments as `c13profplan`
+    let (c, rest) ← Driver.C13Prof.ctx? args
+    let conds? := Driver.C13Prof.conds?
+    match kind, rest with
+    | "mergeprofiles", [fp, main] => do
+      some (hexOut (renderSegs (Prof.mergeProfilesSegs c (← conds? fp) (← conds? main).globals)))
+    | "mergetraces", [tu, fp, main] => do
+      some (hexOut (renderSegs (Prof.mergeTracesSegs c (← ofHex tu) (← conds? fp) (← conds? main).globals)))
+    | "selectseries", [tu, avg, step, gb, fp, main] => do
+      some (hexOut (renderSegs (Prof.selectSeriesSegs c (← ofHex tu) (avg = "1") (← step.toInt?) (← Driver.C13Prof.bytesList? gb)
+        (← conds? fp) (← conds? main).globals)))
+    | "series", [labels, sl] => do
+      let ls ← Driver.C13Prof.bytesList? labels
+      if sl = "NOSEL" then some (hexOut (renderSegs (Prof.planSeriesSegs c ls none)))
+      else do some (hexOut (renderSegs (Prof.planSeriesSegs c ls (some (← conds? sl)))))
+    | "labelsunion", [col, label, scripts] => do
+      let l : Option Bytes ← if label = "NONE" then some none else (hexOrEmpty? label).map some
+      let ps ← (scripts.splitOn "|").mapM conds?
+      some (hexOut (renderSegs (Prof.labelsUnionSegs c (← Driver.C07.str? col) l ps)))
+    | "seriesunion", [labels, scripts] => do
+      let ps ← (scripts.splitOn "|").mapM conds?
+      some (hexOut (renderSegs (Prof.seriesUnionSegs c (← Driver.C13Prof.bytesList? labels) ps)))
+    | "analyze", [sl] => do some (hexOut (renderSegs (Prof.analyzeQuerySegs c (← conds? sl))))
+    | "labelnames", [] => some (hexOut (renderSegs (Prof.labelsNoSelSegs c "key" none)))
+    | "labelvalues", [l] => do some (hexOut (renderSegs (Prof.labelsNoSelSegs c "val" (some (← hexOrEmpty? l)))))
+    | _, _ => none
   | ["c10tempo", fromNs, toNs, minDur, maxDur, limit, v2, idxTable, tracesTable, tags] => do
     let f ← fromNs.toInt?
     let t ← toNs.toInt?
